@@ -21,6 +21,7 @@ type Env struct {
 	st     *State
 	old    *Env
 	pre    *Env
+	iter   *Env // state at the start of the current loop iteration (use at back)
 	local  func(name string) (Val, bool)
 	freshBase *Term // allocation counter at the start of the call
 	depth  int
@@ -434,6 +435,28 @@ func (e *Env) call(x *Expr) Val {
 		r := o.eval(x.Args[0])
 		if r.T != nil && r.T.Sort == SSlice && r.Arr == nil && elemTypeOf(r.Typ) != nil && o.v != nil {
 			r.Arr = o.elemArray(r) // snapshot: contents as they were before the loop
+		}
+		return r
+	case "iter":
+		// value at the start of the current loop iteration (the cut point); only in `use at back`
+		if e.iter == nil {
+			specErr("iter() only available in 'use at back': %s", x)
+		}
+		o := *e.iter
+		o.vars = map[string]Val{}
+		for k, v := range e.vars {
+			if strings.Contains(v.tname(), "?") {
+				o.vars[k] = v
+			}
+		}
+		for k, v := range e.iter.vars {
+			if _, shadow := o.vars[k]; !shadow {
+				o.vars[k] = v
+			}
+		}
+		r := o.eval(x.Args[0])
+		if r.T != nil && r.T.Sort == SSlice && r.Arr == nil && elemTypeOf(r.Typ) != nil && o.v != nil {
+			r.Arr = o.elemArray(r)
 		}
 		return r
 	case "fresh":
